@@ -203,9 +203,11 @@ type rpSuite struct {
 type nodeObs struct{ app, res, exp string }
 
 func runReplica(seed uint64, ops int, out string) map[string]int {
-	r := &Rng{s: seed*104729 + 3}
+	r := SeedRng("replica", seed)
 	s := &rpSuite{r: r, t: NewTrace(out), stat: map[string]int{}}
 	defer s.t.Close()
+	// wall-clock anchoring (see chainGenTime): the block history stays the replay artefact (<trace>.blocks)
+	chainGenTime = time.Now().Add(-65 * time.Second).Truncate(time.Second).UTC()
 	s.cfg = NewChainCfg(6, r)
 	A, B, C := NewNode("A", s.cfg), NewNode("B", s.cfg), NewNode("C", s.cfg)
 	for _, n := range []*Node{A, B, C} {
